@@ -1,5 +1,5 @@
 # replay of a bounded stand-in violation (C15): re-run native/c15_hbar.py
 import sys
-print('fock homodyne-select hbar=3.1: running the same program a second time gives mean_photon = [0.0, 0.07772], the first run gave [0.0, 0.09419]')
+print('gaussian X-Z-P: fock_prob at hbar=3.1 is [0.13361, 1.06394], at hbar=0.5 it is [0.14871, 0.21532]')
 print('REPLAY-VIOLATION')
 sys.exit(1)
